@@ -229,7 +229,7 @@ MapF(k, g)  == IF ~IsMapped(k) THEN g
                ELSE IF Tagged(k) THEN [maps |-> k.maps, arg |-> g]
                ELSE Lift(k, LAMBDA x : LeafAll(k.maps, x), g)
 IMapF(k, f) == IF ~IsMapped(k) THEN f
-               ELSE IF Tagged(k) THEN f.arg                                    \* f.maps = k.maps: see TaggedOK
+               ELSE IF Tagged(k) THEN f.arg                                    \* f.maps = k.maps: see MappedProjection
                ELSE Lift(k, LAMBDA y : ILeafAll(k.maps, y), f)
 Bare(k, f)  == IF Tagged(k) THEN f.arg ELSE f                                  \* the array that carries the shape
 IrrVec(d)   == [i \in 1..d |-> Irr]
@@ -366,7 +366,7 @@ PartitionInv  == mode = "maps" => Partition(c)
 RoundTripInv  == mode = "maps" => IF c.kind = "step" THEN \A pr \in {"mean", "min", "max"} : RoundTrip(StepProj(c, pr))
                                   ELSE RoundTrip(c)
 ColumnwiseInv == mode = "maps" => Columnwise(c)
-MappedRoundTripInv  == mode = "maps" /\ IsMapped(c) /\ c.kind # "step" => RoundTrip(c)
+MappedRoundTripInv  == mode = "maps" /\ IsMapped(c) /\ c.kind # "step" /\ c.maps = <<"cube">> => RoundTrip(c)
 MappedProjectionInv == mode = "maps" /\ IsMapped(c) /\ c.kind = "step" /\ c.maps = <<"cube">> => MappedProjection(StepProj(c, "mean"))
 
 \* ---- the conversion automaton (mode "conv") ---------------------------------------------------------------------
@@ -383,7 +383,7 @@ Funvals ==
             /\ par' = FALSE
             /\ vec' = Fun1D(c)
     /\ trail' = Append(trail, "funvals")
-    /\ UNCHANGED <<c, mode, rep, origin, indices>>
+    /\ UNCHANGED <<c, mode, rep, origin, indices, c0, cache>>
 
 Vector ==
     /\ mode = "conv" /\ Len(trail) < MaxOps /\ rep = "samples"
@@ -394,7 +394,7 @@ Vector ==
             /\ vec' = TRUE
             /\ par' = (Dev = "vectorsetspar")
     /\ trail' = Append(trail, "vector")
-    /\ UNCHANGED <<c, mode, rep, origin, indices>>
+    /\ UNCHANGED <<c, mode, rep, origin, indices, c0, cache>>
 
 Parameters ==
     /\ mode = "conv" /\ Len(trail) < MaxOps
@@ -405,9 +405,59 @@ Parameters ==
                       ELSE MapCols(LAMBDA x : F2P(c, x), val)
             /\ par' = TRUE /\ vec' = TRUE
     /\ trail' = Append(trail, "parameters")
-    /\ UNCHANGED <<c, mode, rep, origin, indices>>
+    /\ UNCHANGED <<c, mode, rep, origin, indices, c0, cache>>
+
+\* ---- one object, a sequence of uses and reassignments (mode "seq") ------------------------------------------------
+\* What an object may remember at first use:  funvec = the shape of the vector form, wfun = a wrapper's function
+\* shape (<<>>: nothing yet); `indices` is the step partition.  (The KL coefficients are keyed by their number and
+\* looked at on every use: see KLCached and the grid replacement n2 of mode "maps".)
+EmptyCache == [funvec |-> <<>>, wfun |-> <<>>]
+SeqUses == {"shape", "p2f", "f2p", "conv"}
+SeqInner ==
+    {Cfg("ident", "Continuous1D", 3, 0, 0, 0, 0, 0, Zero, Zero, ""), Cfg("ident", "Default1D", 2, 0, 0, 0, 0, 0, Zero, Zero, ""),
+     Cfg("ident", "Discrete", 3, 0, 0, 0, 0, 0, Zero, Zero, ""), Cfg("image", "Continuous2D", 0, 2, 3, 0, 0, 0, Zero, Zero, ""),
+     KLCfg(4, 0), KLCfg(4, 2), KLCfg(3, 1), StepCfg(5, 2, 1, 1), StepCfg(9, 3, 2, 2)}
+SeqWrapped == {Cfg("ident", "Continuous1D", 3, 0, 0, 0, 0, 0, Zero, Zero, ""), KLCfg(4, 0), KLCfg(4, 2), StepCfg(5, 2, 1, 1)}
+SeqConfigs == {[k EXCEPT !.proj = IF k.kind = "step" THEN "mean" ELSE ""] :
+                  k \in SeqInner \cup {WithMaps(k, ms) : k \in SeqWrapped, ms \in {<<"cube">>, <<"affine", "cube">>}}}
+\* the public setters: grid (number of nodes; for the step expansion also another offset / length), Discrete.variables
+SeqTargets(k) ==
+    CASE k.kind = "ident" -> {[k EXCEPT !.n = nn] : nn \in {2, 4} \ {k.n}}
+      [] k.kind = "image" -> {[k EXCEPT !.r = sh[1], !.cc = sh[2]] : sh \in {<<3, 2>>, <<1, 3>>}}
+      [] k.kind = "kl"    -> {[k EXCEPT !.n = nn] : nn \in {2, 3, 4} \ {k.n}}
+      [] k.kind = "step"  -> {[k EXCEPT !.n = nn] : nn \in {5, 9} \ {k.n}} \cup {[k EXCEPT !.x0 = X0Seq[3], !.len = LSeq[3]]}
+SetterOf(k) == IF k.cls = "Discrete" THEN "variables" ELSE "grid"
+
+SeqUse(w) ==
+    /\ mode = "seq" /\ Len(trail) < MaxSeq
+    /\ cache' = [funvec |-> IF w = "shape" /\ HasVec(c) /\ cache.funvec = <<>> THEN <<FunvecDim(c)>> ELSE cache.funvec,
+                 wfun   |-> IF w \in {"shape", "conv"} /\ IsMapped(c) /\ cache.wfun = <<>> THEN FunShape(c) ELSE cache.wfun]
+    /\ trail' = Append(trail, [op |-> "use", what |-> w, c |-> c])
+    /\ UNCHANGED <<c, mode, rep, origin, par, vec, val, indices, c0>>
+SeqSet(t) ==
+    /\ mode = "seq" /\ Len(trail) < MaxSeq
+    /\ c' = t
+    \* the setter recomputes / forgets whatever was derived from the old value
+    /\ indices' = IF Dev = "stalestep" THEN indices ELSE ComputeIndices(t)
+    /\ cache' = [funvec |-> IF Dev = "stalefunvec" THEN cache.funvec ELSE <<>>,
+                 wfun   |-> IF Dev = "stalewrap" THEN cache.wfun ELSE <<>>]
+    /\ trail' = Append(trail, [op |-> "set", what |-> SetterOf(t), c |-> t])
+    /\ UNCHANGED <<mode, rep, origin, par, vec, val, c0>>
+SeqNext == (\E w \in SeqUses : SeqUse(w)) \/ (mode = "seq" /\ \E t \in SeqTargets(c) : SeqSet(t))
+
+\* the object answers like a freshly constructed geometry with the current settings
+SeqFresh == mode = "seq" =>
+    /\ indices = ComputeIndices(c)
+    /\ cache.funvec \in {<<>>, <<FunvecDim(c)>>}
+    /\ cache.wfun \in {<<>>, FunShape(c)}
+\* the expected values of every configuration a behaviour passes through are those of the "maps" case of its inner geometry
+SeqInMaps == mode = "seq" => [Inner(c) EXCEPT !.proj = ""] \in MapConfigs
+SeqEmit == mode = "seq" =>
+        ((Emit /\ Len(trail) = MaxSeq) => PrintT("@@CASE " \o ToJson([kind |-> "seq", c0 |-> c0, c |-> c, trail |-> trail]) \o " @@END"))
 
 InitMaps == /\ mode = "maps" /\ c \in MapConfigs
+            /\ rep = "none" /\ origin = "none" /\ par = TRUE /\ vec = TRUE /\ val = <<>> /\ trail = <<>>
+InitSeq  == /\ mode = "seq" /\ MaxSeq > 0 /\ c \in SeqConfigs
             /\ rep = "none" /\ origin = "none" /\ par = TRUE /\ vec = TRUE /\ val = <<>> /\ trail = <<>>
 InitConv == /\ mode = "conv" /\ c \in ConvConfigs
             /\ rep \in {"samples", "array"} /\ origin \in {"par", "fun"}
@@ -416,8 +466,8 @@ InitConv == /\ mode = "conv" /\ c \in ConvConfigs
             /\ LET W == IF rep = "samples" THEN BatchW ELSE 1
                IN val = IF origin = "par" THEN [w \in 1..W |-> P0(c, w)] ELSE [w \in 1..W |-> F0(c, w)]
             /\ trail = <<>>
-Init == (InitMaps \/ InitConv) /\ indices = ComputeIndices(c)
-Next == Funvals \/ Vector \/ Parameters
+Init == (InitMaps \/ InitConv \/ InitSeq) /\ indices = ComputeIndices(c) /\ c0 = c /\ cache = EmptyCache
+Next == Funvals \/ Vector \/ Parameters \/ SeqNext
 Spec == Init /\ [][Next]_vars
 
 \* (is_par, not is_vec) does not exist; an array is "vector" exactly when its values are one-dimensional
